@@ -48,7 +48,7 @@ impl Memory {
     pub open spec fn wf(&self) -> bool { sections_wf(self.sections@) }
 
     /// the content: address -> (byte, permissions); absent = unmapped
-    pub open spec fn bytes(&self) -> Map<u64, (u8, MemoryPermissions)> { bytes_of(self.sections@) }
+    pub open spec fn bytes(&self) -> IMap<u64, (u8, MemoryPermissions)> { bytes_of(self.sections@) }
 
 //@ fn impl Memory :: fn new
 //@ spec
@@ -56,11 +56,11 @@ impl Memory {
         /*@wf*/ r.wf(),
         /*@endian*/ r.endian == endian,
         /*@unmapped*/ forall|x: int| (#[trigger] vw(r.sections@, x)) is None,
-        /*@view*/ r.bytes() == Map::<u64, (u8, MemoryPermissions)>::empty(),
+        /*@view*/ r.bytes() == IMap::<u64, (u8, MemoryPermissions)>::empty(),
 //@ before 0 `Memory {`
     proof {
         lemma_vw_empty(Map::<u64, Section>::empty());
-        assert(bytes_of(Map::<u64, Section>::empty()) =~= Map::<u64, (u8, MemoryPermissions)>::empty());
+        assert(bytes_of(Map::<u64, Section>::empty()) =~= IMap::<u64, (u8, MemoryPermissions)>::empty());
     }
 //@ end
 
@@ -74,7 +74,7 @@ impl Memory {
 //@ spec
     requires self.wf(),
     ensures
-        /*@found*/ r matches Some(k) ==> covers(self.sections@, k, address as int),
+        /*@found*/ r matches Some(k) ==> covers(self.sections@, k, address as int) && address - k < usize::MAX,
         /*@absent*/ r is None ==> forall|k: u64| !covers(self.sections@, k, address as int),
 //@ before 0 `if let Some((section_address, section)) = sections.next_back()`
     let ghost rem = sections.remaining();
@@ -103,7 +103,7 @@ impl Memory {
 
 //@ fn impl Memory :: fn section_address_offset
 //@ closure 0 |section_address: u64| -> (r0: (u64, usize))
-    requires section_address <= address,
+    requires section_address <= address, address - section_address < usize::MAX,
     ensures r0.0 == section_address, r0.1 as int == address - section_address,
 //@ spec
     requires self.wf(),
@@ -122,6 +122,7 @@ impl Memory {
     requires self.wf(),
     ensures
         /*@read*/ r == (match vw(self.sections@, address as int) { Some(bp) => Some(bp.1), None => None::<MemoryPermissions> }),
+        /*@read_map*/ r == (if self.bytes().contains_key(address) { Some(self.bytes()[address].1) } else { None::<MemoryPermissions> }),
 //@ enter
     proof {
         lemma_vw_inv(self.sections@, address as int);
@@ -133,9 +134,10 @@ impl Memory {
 //@ end
 
 //@ fn impl Memory :: fn get8
-//@ closure 0 |(address, offset): (u64, usize)| -> (r0: u8)
-    requires self.sections@.contains_key(address), offset < self.sections@[address].data@.len(),
-    ensures r0 == self.sections@[address].data@[offset as int],
+//@ rewrite 1 `|(address, offset)| {` => `|ao__| { let (address, offset) = ao__;` ## R-closure-pattern: a tuple pattern in a closure's parameter list is by definition a `let` destructuring of that parameter at the start of the body (Verus accepts only variable parameters)
+//@ closure 0 |ao__: (u64, usize)| -> (r0: u8)
+    requires self.sections@.contains_key(ao__.0), ao__.1 < self.sections@[ao__.0].data@.len(),
+    ensures r0 == self.sections@[ao__.0].data@[ao__.1 as int],
 //@ closure 1 || -> (r1: &Section)
     requires false,
 //@ closure 2 || -> (r2: &u8)
@@ -144,6 +146,7 @@ impl Memory {
     requires self.wf(),
     ensures
         /*@read*/ r == (match vw(self.sections@, address as int) { Some(bp) => Some(bp.0), None => None::<u8> }),
+        /*@read_map*/ r == (if self.bytes().contains_key(address) { Some(self.bytes()[address].0) } else { None::<u8> }),
 //@ enter
     proof {
         lemma_vw_inv(self.sections@, address as int);
@@ -154,4 +157,267 @@ impl Memory {
     }
 //@ end
 
+//@ fn impl Memory :: fn get32
+//@ spec
+    requires self.wf(),
+    ensures
+        /*@none*/ !within32(self.sections@, address) ==> r is None,
+        /*@value*/ within32(self.sections@, address) ==> all_mapped(self.sections@, address, 4)
+            && (r matches Some(v) && v as nat == endian_value(self.endian, bytes_at(self.sections@, address, 4))),
+//@ enter
+    proof {
+        if forall|k: u64| !covers(self.sections@, k, address as int) {
+            lemma_vw_none(self.sections@, address as int);
+            lemma_not_within32(self.sections@, address);
+        }
+    }
+//@ before 0 `if offset + 4 > section.len()`
+    proof {
+        axiom_vec_u8_len(section.data);
+        lemma_within32(self.sections@, section_address, address);
+    }
+//@ before 0 `Some(match self.endian`
+    proof {
+        let d = section.data@;
+        let o = offset as int;
+        let (d0, d1, d2, d3) = (d[o], d[o + 1], d[o + 2], d[o + 3]);
+        assert(((d0 as u32) << 24 | (d1 as u32) << 16 | (d2 as u32) << 8 | (d3 as u32))
+            == (d0 as u32) * 0x100_0000 + (d1 as u32) * 0x1_0000 + (d2 as u32) * 0x100 + (d3 as u32)) by (bit_vector);
+        assert(((d0 as u32) | (d1 as u32) << 8 | (d2 as u32) << 16 | (d3 as u32) << 24)
+            == (d0 as u32) + (d1 as u32) * 0x100 + (d2 as u32) * 0x1_0000 + (d3 as u32) * 0x100_0000) by (bit_vector);
+        let bs = bytes_at(self.sections@, address, 4);
+        assert forall|i: int| 0 <= i < 4 implies (#[trigger] vw(self.sections@, address + i)) == Some((d[o + i], section.permissions)) by {
+            assert(covers(self.sections@, section_address, address + i));
+            lemma_vw_some(self.sections@, section_address, address + i);
+        }
+        assert(bs[0] == d0 && bs[1] == d1 && bs[2] == d2 && bs[3] == d3);
+        lemma_value4(bs);
+    }
+//@ end
+
+//@ fn impl Memory :: fn set32
+//@ closure 0 || -> (r0: (u64, usize))
+    requires false,
+//@ spec
+    requires
+        old(self).wf(),
+        vw(old(self).sections@, address as int) is Some,   // finding (iii): the code panics on an unmapped address
+    ensures
+        /*@wf*/ final(self).wf(),
+        /*@endian*/ final(self).endian == old(self).endian,
+        /*@err*/ !within32(old(self).sections@, address) ==> r is Err && final(self).sections@ == old(self).sections@,
+        /*@ok*/ within32(old(self).sections@, address) ==> r is Ok && (forall|x: int| #[trigger] vw(final(self).sections@, x) == (
+            if address <= x < address + 4 { Some((w32_byte(old(self).endian, value, x - address), vw(old(self).sections@, x).unwrap().1)) }
+            else { vw(old(self).sections@, x) })),
+//@ enter
+    proof { lemma_vw_inv(self.sections@, address as int); }
+//@ before 0 `if offset + 4 > section.len()`
+    let ghost d_old = section.data@;
+    let ghost p_old = section.permissions;
+    proof {
+        axiom_vec_u8_len(section.data);
+        lemma_within32(old(self).sections@, section_address, address);
+        assert(old(self).sections@[section_address].data@ == d_old);
+    }
+//@ before 0 `Ok(())`
+    proof {
+        let s0 = old(self).sections@;
+        let k = section_address;
+        let o = offset as int;
+        let sec = self.sections@[k];
+        assert(self.sections@ =~= s0.insert(k, sec));
+        assert(sec.permissions == p_old);
+        assert(sec.data@.len() == d_old.len());
+        assert(value as u8 == (value % 0x100) as u8) by (bit_vector);
+        assert((value >> 8) as u8 == ((value / 0x100) % 0x100) as u8) by (bit_vector);
+        assert((value >> 16) as u8 == ((value / 0x1_0000) % 0x100) as u8) by (bit_vector);
+        assert((value >> 24) as u8 == ((value / 0x100_0000) % 0x100) as u8) by (bit_vector);
+        assert forall|i: int| 0 <= i < d_old.len() implies sec.data@[i] == (if o <= i < o + 4 { w32_byte(self.endian, value, i - o) } else { d_old[i] }) by {}
+        lemma_replace(s0, k, sec);
+        assert forall|x: int| #[trigger] vw(self.sections@, x) == (
+            if address <= x < address + 4 { Some((w32_byte(self.endian, value, x - address), vw(s0, x).unwrap().1)) }
+            else { vw(s0, x) }) by {
+            if k <= x < k + d_old.len() {
+                assert(covers(s0, k, x));
+                lemma_vw_some(s0, k, x);
+            }
+        }
+    }
+//@ end
+
+//@ fn impl Memory :: fn get loops=2
+//@ spec
+    requires
+        self.wf(),
+        bits as nat <= MAX_BITS(),   // width bound under which unit C04 proves il::Constant / eval
+    ensures
+        /*@none_width*/ (bits == 0 || bits % 8 != 0) ==> r is None,
+        /*@none_unmapped*/ !all_mapped(self.sections@, address, (bits / 8) as nat) ==> r is None,
+        /*@value*/ (bits != 0 && bits % 8 == 0 && all_mapped(self.sections@, address, (bits / 8) as nat)) ==>
+            (r matches Some(c) && c.wf() && c.bits == bits
+             && c.value@ == endian_value(self.endian, bytes_at(self.sections@, address, (bits / 8) as nat))),
+//@ before 0 `match self.endian`
+    proof { lemma_get_init(value, bits, self.sections@, address); }
+//@ loop 0
+    invariant
+        self.wf(), 8 <= bits, bits as nat <= MAX_BITS(), bits % 8 == 0,
+        1 <= i <= bits / 8,
+        forall|x: int| address <= x < address + i ==> (#[trigger] vw(self.sections@, x)) is Some,
+        expr_sane(value), expr_bits(value) == bits,
+        eval_spec(value, empty_env()) == EvalR::Val(bits as nat, be_value(bytes_at(self.sections@, address, i as nat))),
+//@ before 0 `value = il::Expression::or(`
+    let ghost old_value = value;
+    proof {
+        assert(vw(self.sections@, address + i - 1) is Some);
+        lemma_vw_range(self.sections@, address + i - 1);
+    }
+//@ after 0 `.unwrap();`
+    proof {
+        assert(vw(self.sections@, address + i) is Some);
+        lemma_get_step_be(old_value, value, bits, self.sections@, address, i as nat);
+    }
+//@ loop 1
+    invariant
+        self.wf(), 8 <= bits, bits as nat <= MAX_BITS(), bits % 8 == 0,
+        1 <= i <= bits / 8,
+        forall|x: int| address <= x < address + i ==> (#[trigger] vw(self.sections@, x)) is Some,
+        expr_sane(value), expr_bits(value) == bits,
+        eval_spec(value, empty_env()) == EvalR::Val(bits as nat, le_value(bytes_at(self.sections@, address, i as nat))),
+//@ before 1 `value = il::Expression::or(`
+    let ghost old_value = value;
+    proof {
+        assert(vw(self.sections@, address + i - 1) is Some);
+        lemma_vw_range(self.sections@, address + i - 1);
+    }
+//@ after 1 `.unwrap();`
+    proof {
+        assert(vw(self.sections@, address + i) is Some);
+        lemma_get_step_le(old_value, value, bits, self.sections@, address, i as nat);
+    }
+//@ end
+
+//@ fn impl Memory :: fn set_memory loops=2
+//@ rewrite 1 `self .sections .iter() .map(|(address, section)|` => `{ let mut als__: Vec<(u64, usize)> = Vec::new(); for (address, section) in it0: self.sections.iter() { als__.push(` ## R-map-collect: `ITER.map(|x| F).collect::<Vec<T>>()` is by definition the loop that pushes F for every item of ITER, in order, onto an initially empty Vec<T> (part 1 of 2; the iterator expression and F stay the original tokens)
+//@ rewrite 1 `.collect::<Vec<(u64, usize)>>();` => `; } als__ };` ## R-map-collect: part 2 of 2
+//@ rewrite 1 `for al in` => `for al in it1:` ## R-ghost-iter-name: names the ghost iterator of the for loop so that invariants can mention it; no executable change
+//@ closure 0 || -> (r0: &mut Section)
+    requires false,
+//@ closure 1 || -> (r1: &mut Section)
+    requires false,
+//@ closure 2 || -> (r2: &Section)
+    requires false,
+//@ closure 3 || -> (r3: &Section)
+    requires false,
+//@ spec
+    requires
+        old(self).wf(),
+        address + data@.len() <= u64::MAX,   // finding (iv): the region must not reach the last address 2^64-1
+    ensures
+        /*@wf*/ final(self).wf(),
+        /*@endian*/ final(self).endian == old(self).endian,
+        /*@view*/ forall|x: int| #[trigger] vw(final(self).sections@, x) == write_at(old(self).sections@, address, data@, permissions, x),
+        /*@view_map*/ final(self).bytes() == write_map(old(self).bytes(), address, data@, permissions),
+//@ loop 0
+    invariant
+        self.sections@ == old(self).sections@,
+        als__@.len() == it0.index@,
+        it0.seq().no_duplicates(),
+        forall|j: int| 0 <= j < it0.seq().len() ==> self.sections@.contains_key(*(#[trigger] it0.seq()[j]).0) && self.sections@[*it0.seq()[j].0] == *it0.seq()[j].1,
+        forall|k: u64| #[trigger] self.sections@.contains_key(k) ==> exists|j: int| 0 <= j < it0.seq().len() && *(#[trigger] it0.seq()[j]).0 == k,
+        forall|j: int| #![trigger als__@[j]] #![trigger it0.seq()[j]] 0 <= j < it0.index@ ==> als__@[j].0 == *it0.seq()[j].0 && als__@[j].1 as nat == it0.seq()[j].1.data@.len(),
+//@ loop 1
+    invariant
+        address + data@.len() <= u64::MAX,
+        self.endian == old(self).endian,
+        sections_wf(self.sections@),
+        // the snapshot lists the sections of the memory as it was on entry, each once
+        forall|j: int| 0 <= j < it1.seq().len() ==> old(self).sections@.contains_key((#[trigger] it1.seq()[j]).0)
+            && it1.seq()[j].1 as nat == old(self).sections@[it1.seq()[j].0].data@.len(),
+        forall|i: int, j: int| 0 <= i < j < it1.seq().len() ==> (#[trigger] it1.seq()[i]).0 != (#[trigger] it1.seq()[j]).0,
+        // sections not yet visited are untouched
+        forall|j: int| it1.index@ <= j < it1.seq().len() ==> self.sections@.contains_key((#[trigger] it1.seq()[j]).0)
+            && self.sections@[it1.seq()[j].0] == old(self).sections@[it1.seq()[j].0],
+        // every stored section is either not yet visited or already clear of the written region
+        forall|k: u64| #[trigger] self.sections@.contains_key(k) ==>
+            (exists|j: int| it1.index@ <= j < it1.seq().len() && (#[trigger] it1.seq()[j]).0 == k)
+            || k + self.sections@[k].data@.len() <= address || address + data@.len() <= k,
+        // outside the written region nothing has changed
+        forall|x: int| !(address <= x < address + data@.len()) ==> #[trigger] vw(self.sections@, x) == vw(old(self).sections@, x),
+//@ after 0 `let (a, l) = (al.0, al.1 as u64);`
+    let ghost s1 = self.sections@;
+    proof {
+        assert(al == it1.seq()[it1.index@]);
+        assert(s1.contains_key(a) && s1[a] == old(self).sections@[a] && l == s1[a].data@.len());
+        lemma_vw_section(s1, a);
+    }
+//@ after 0 `.truncate(new_length);`
+    proof {
+        assert(self.sections@ =~= s1.insert(a, self.sections@[a]));
+        lemma_truncate(s1, a, self.sections@[a], address - a);
+    }
+//@ before 0 `let permissions = self`
+    let ghost s2 = self.sections@;
+    proof {
+        assert(s2 =~= s1.insert(a, s2[a]));
+        lemma_truncate(s1, a, s2[a], address + data@.len() - a);
+    }
+//@ before 0 `let new_length = (address - a) as usize; self.sections.get_mut(&a).unwrap()`
+    let ghost s3 = self.sections@;
+    proof {
+        let n = (address + data@.len()) as u64;
+        assert(s3 =~= s2.insert(n, s3[n]));
+        lemma_insert(s2, n, s3[n]);
+    }
+//@ after 1 `.truncate(new_length);`
+    proof {
+        assert(self.sections@ =~= s3.insert(a, self.sections@[a]));
+        lemma_truncate(s3, a, self.sections@[a], address - a);
+    }
+//@ after 0 `self.sections.remove(&a);`
+    proof {
+        assert(self.sections@ =~= s1.remove(a));
+        lemma_remove(s1, a);
+    }
+//@ after 1 `self.sections.remove(&a);`
+    let ghost s3 = self.sections@;
+    proof {
+        assert(s3 =~= s1.remove(a));
+        lemma_remove(s1, a);
+    }
+//@ after 1 `Section::new(split, permissions), );`
+    proof {
+        let n = (address + data@.len()) as u64;
+        assert(self.sections@ =~= s3.insert(n, self.sections@[n]));
+        lemma_insert(s3, n, self.sections@[n]);
+    }
+//@ before 0 `self.sections .insert(address, Section::new(data, permissions));`
+    let ghost s_end = self.sections@;
+    let ghost data0 = data@;
+//@ after 0 `self.sections .insert(address, Section::new(data, permissions));`
+    proof {
+        let sec = self.sections@[address];
+        assert(self.sections@ =~= s_end.insert(address, sec));
+        if data0.len() > 0 {
+            lemma_insert(s_end, address, sec);
+        }
+        lemma_write_map(old(self).sections@, self.sections@, address, data0, permissions);
+    }
+//@ end
+
 } // impl Memory
+
+impl TranslationMemory for Memory {
+    open spec fn tm_wf(&self) -> bool { self.wf() }
+
+    open spec fn tm_read(&self, address: u64) -> Option<(u8, MemoryPermissions)> { vw(self.sections@, address as int) }
+
+//@ fn impl TranslationMemory for Memory :: fn get_u8 nopub
+//@ spec
+    ensures /*@read*/ r == (match vw(self.sections@, address as int) { Some(bp) => Some(bp.0), None => None::<u8> }),
+//@ end
+
+//@ fn impl TranslationMemory for Memory :: fn permissions nopub
+//@ spec
+    ensures /*@read*/ r == (match vw(self.sections@, address as int) { Some(bp) => Some(bp.1), None => None::<MemoryPermissions> }),
+//@ end
+}
